@@ -142,3 +142,30 @@ func parallelDo(n, workers int, f func(i int)) {
 	close(ch)
 	wg.Wait()
 }
+
+// confirmWith runs a single named back end (optionally with a z3 random seed) on a script.
+func confirmWith(dir, name, script, be string, seed, timeoutS int) string {
+	file := filepath.Join(dir, name+".smt2")
+	_ = os.WriteFile(file, []byte(script), 0o644)
+	var a []string
+	switch be {
+	case "cvc5":
+		a = []string{"cvc5", "--enum-inst", fmt.Sprintf("--tlimit=%d", timeoutS*1000), file}
+	case "z3":
+		a = []string{"z3", fmt.Sprintf("-T:%d", timeoutS), fmt.Sprintf("smt.random_seed=%d", seed), file}
+	default:
+		a = []string{"z3-new", fmt.Sprintf("-T:%d", timeoutS), fmt.Sprintf("smt.random_seed=%d", seed), file}
+	}
+	ctx, cancel := context.WithTimeout(context.Background(), time.Duration(timeoutS+2)*time.Second)
+	defer cancel()
+	cmd := exec.CommandContext(ctx, a[0], a[1:]...)
+	var out bytes.Buffer
+	cmd.Stdout = &out
+	cmd.Stderr = &out
+	_ = cmd.Run()
+	fl := firstLine(out.String())
+	if fl == "sat" || fl == "unsat" {
+		return fl
+	}
+	return "unknown"
+}
